@@ -66,6 +66,7 @@ def cases(draw, tier):
     ds_ = draw(gen.datasets(max_n=mx, max_m=6, shapes=SHAPES + ["cyclic_ties", "mixture"]))
     return {"starters": starters, "scheme": draw(schemes()), "dataset": ds_,
             "via_mutation": draw(mutate.via_strategy(ds_["rankings"], p=5)),
+            "prelude": draw(st.sampled_from([None, None, "reordered", "reordered", "renamed", "other"])),
             "at_most_one": draw(st.booleans()), "rng": draw(st.integers(0, 9999))}
 
 
@@ -87,6 +88,9 @@ def check(case, ctx):
         def warm(d0):
             # the SAME BioConsert instance (and starters) is used on the dataset before its in-place mutation
             alg.compute_consensus_rankings(d0, s, case["at_most_one"])
+        from checks.common_alg import run_prelude
+        run_prelude(alg, {"prelude": case.get("prelude"), "dataset": case["dataset"],
+                          "at_most_one": case["at_most_one"]}, s)
         d = mutate.build(rankings, case.get("via_mutation"), warm)
         for r in recs:
             del r.calls[:]
